@@ -7,7 +7,7 @@ NT = set("consecutive-failures,retry-delay-capped,buffer-growth,buffer-growth-ac
 
 
 class Eng(cons.CONSEngine):
-    MACROS = ["steady", "failfetch", "failfetch", "failempty", "failempty", "oor", "oor", "bigmsg", "bigmsg"]
+    MACROS = ["steady", "failfetch", "failfetch", "failempty", "failempty", "oor", "oor", "failoor", "failoor", "bigmsg", "bigmsg"]
     MACRO_ONE_IN = 4
 
     def nontrivial(self):
